@@ -277,6 +277,9 @@ def job_strategy(draw, kinds=("transform", "transform", "grammar", "analysis", "
         dests = ["export", "discobrackets", "tigerxml", "terminals"] + (["brackets"] if cont else [])
         job["dest_fmt"] = draw(st.sampled_from(dests))
         job["trans"] = list(draw(st.sampled_from(TRANS)))
+        if job["dest_fmt"] == "brackets" and any(t.startswith("punctuation_") or t in ("root_attach", "insert_terminals") for t in job["trans"]):
+            # re-attachment can make a continuous tree discontinuous, which the bracket writer rightly refuses
+            job["dest_fmt"] = "discobrackets"
         if "substitute_terminals" in job["trans"] or "insert_terminals" in job["trans"]:
             sids = [t["sid"] for t in trees] if src_fmt in ("export", "tigerxml") else list(range(1, len(trees) + 1))
             lines = []
